@@ -93,7 +93,7 @@ def body(data) -> Outcome:
 
 def campaigns(tier):
     return [
-        Campaign("map", body, mp.map_programs(allow_root_defaults=True), quick=3200, thorough=48000, describe="MapPrograms, sequential map into a run folder"),
+        Campaign("map", body, mp.map_programs(allow_root_defaults=True), quick=3200, thorough=36000, describe="MapPrograms, sequential map into a run folder"),
     ]
 
 
